@@ -1211,6 +1211,49 @@ prog_second_peer(void *arg)
 	lib_fini();
 }
 
+
+// ---- program: endpoints of every stream transport created, started, closed and created again ---------------
+// nng_listen / nng_dial (NNG_FLAG_NONBLOCK: nobody listens there) over ipc, tcp and websocket before any peer
+// exists, closed one by one, then the same again on the same socket: a failure in the first round must not
+// leave the socket, the address or the transport in a state in which the second round misbehaves
+static void
+prog_endpoints(void *arg)
+{
+	(void) arg;
+	vs_tcp_grace_us = 1500;
+	lib_init();
+	nng_socket s = NNG_SOCKET_INITIALIZER;
+	LOCAL(nng_pair0_open(&s));
+	LOCAL(nng_socket_set_ms(s, NNG_OPT_RECONNMINT, 50));
+	LOCAL(nng_socket_set_ms(s, NNG_OPT_RECONNMAXT, 50));
+	char ipcurl[200], url[200];
+	snprintf(ipcurl, sizeof(ipcurl), "ipc://%s/c20ep-%d.sock", vx_rundir(), (int) getpid());
+	for (int round = 0; round < 2; round++) {
+		static const char *LU[] = { NULL, "tcp://127.0.0.1:0", "ws://127.0.0.1:0/c20ep" };
+		for (int t = 0; t < 3; t++) {
+			nng_listener l = NNG_LISTENER_INITIALIZER;
+			nng_dialer   d = NNG_DIALER_INITIALIZER;
+			int          port = 0;
+			LOCAL(nng_listen(s, t == 0 ? ipcurl : LU[t], &l, 0));
+			if (t) {
+				LOCAL(nng_listener_get_int(l, NNG_OPT_BOUND_PORT, &port));
+				snprintf(url, sizeof(url), t == 1 ? "tcp://127.0.0.1:%d" : "ws://127.0.0.1:%d/c20ep", 1);
+			} else
+				snprintf(url, sizeof(url), "ipc://%s/c20ep-nobody-%d.sock", vx_rundir(), (int) getpid());
+			(void) port;
+			LOCAL(nng_dial(s, url, &d, NNG_FLAG_NONBLOCK)); // nobody there: it keeps redialling
+			vs_settle();
+			vs_sleep(60); // one redial
+			vs_settle();
+			LOCAL(nng_dialer_close(d));
+			LOCAL(nng_listener_close(l));
+			vs_settle();
+		}
+	}
+	LOCAL(nng_socket_close(s));
+	lib_fini();
+}
+
 // ---- program: device ---------------------------------------------------------------------
 static void
 prog_device(void *arg)
@@ -1302,6 +1345,7 @@ main(int argc, char **argv)
 	explore("url-stats", prog_url, NULL);
 	explore("device", prog_device, NULL);
 	explore("msg-ops", prog_msg, NULL);
+	explore("endpoints-ipc-tcp-ws-twice", prog_endpoints, NULL);
 	explore("second-peer-inproc", prog_second_peer, (void *) 0);
 	explore("second-peer-tcp", prog_second_peer, (void *) 1);
 	explore("stream-ipc", prog_stream, (void *) (intptr_t) T_IPC);
